@@ -275,17 +275,33 @@ def c_elements(ctx, case, res):
     return "[" + "; ".join(es) + "]"
 
 
+def generated_sources(features, ids):
+    """indices of the provenance features this assembly generated: per supplied plasmid id, the widest feature naming
+    it (an inherited provenance feature of an earlier level may name the same id; it lies inside)"""
+    best = {}
+    for i, f in enumerate(features):
+        if "plasmid" not in f:
+            continue
+        pid = f["plasmid"][0] if isinstance(f["plasmid"], list) else f["plasmid"]
+        if pid not in ids:
+            continue
+        width = sum(b - a for a, b, _ in f["parts"])
+        if pid not in best or width >= best[pid][0]:
+            best[pid] = (width, i)
+    return {i: pid for pid, (_, i) in best.items()}
+
+
 def c_product(case, res, ids=None):
     view = res["product"]
     q = case["q"]
     ids = ids or [case["elements"][i]["rec"]["id"] for i in list(range(q)) + [q]]
+    gen = generated_sources(view["features"], ids)
     feats = []
-    for f in view["features"]:
+    for i, f in enumerate(view["features"]):
         g = dict(f)
         if "plasmid" in f:
-            pid = f["plasmid"][0] if isinstance(f["plasmid"], list) else f["plasmid"]
             # provenance features inherited from an earlier level keep the (empty) label they had in the input
-            g["q"] = 900 + ids.index(pid) if pid in ids else None
+            g["q"] = 900 + ids.index(gen[i]) if i in gen else None
         feats.append(g)
     return "(Some %s)" % recutil.c_record({"seq": view["seq"], "features": feats})
 
